@@ -1247,6 +1247,14 @@ class Evaluator:
         if name == "core::option::Option::<T>::as_mut" and args and args[0][0] == "mref":
             cur = self._mref_get(env, args[0])
             return opt_match(cur, lambda x: some(("mref", args[0][1], args[0][2] + (("d", "Some", 1), ("f", "0", 0)))), lambda: NONE)
+        if declared == "core::iter::traits::iterator::Iterator::next" and len(args) == 1 and args[0][0] == "mref" and name != RANGE_NEXT:
+            cur = self._mref_get(env, args[0])
+            base, pos = (cur[1], cur[2]) if cur[0] == "advanced" else (cur, 0)
+            if base[0] in ("call", "iter", "iop", "imap", "ifilter", "ifiltermap") and self.prog.fn(name) is None:
+                # the k-th call of next() on an iterator value yields its k-th element: one name for `it.nth(k)` and for
+                # k+1 explicit next() calls
+                self._mref_set(env, args[0], ("advanced", base, pos + 1))
+                return ("call", "core::iter::traits::iterator::Iterator::nth", (base, C(pos, "usize")))
         if name == RANGE_NEXT and args and args[0][0] == "mref" and not args[0][2]:
             cur = env.get(args[0][1], ("uninit",))
             if cur[0] == "adt" and cur[1] == "core::ops::range::Range":
